@@ -253,7 +253,7 @@ for n, w in (("c13_mp_one", "mpmc, one receiver handle"), ("c13_mp_two_handles",
 
 # ---- blocking receive
 W = "scen_wait"
-WRULES = queue_rules(retry=4, extra=[(r'BlockingWait.*::wait', 4), (r'BusyWait.*::wait', 12), (r'YieldingWait.*::wait', 8),
+WRULES = queue_rules(retry=4, extra=[(r'BlockingWait.*::wait', 4), (r'BusyWait.*::wait', 16), (r'YieldingWait.*::wait', 12),
                                       (r'InnerRecv.*::recv', 4), (r'cv_wait_impl', 7)])
 for n, w in (("c08_mp_blk00_send", "mpmc BlockingWait(0,0): blocked recv vs one send"),
              ("c08_bc_blk00_senddrop", "broadcast BlockingWait(0,0): blocked recv vs send + drop of the last sender"),
@@ -297,15 +297,16 @@ for n, w, t in (("c16_protocol_seq", "sequential: 20 pre-loaded retirements, two
 # ---- sequential histories
 S = "scen_seq"
 SEQRULES = queue_rules(retry=3, streams=3, ring=3, extra=[(r'ReadCursor::add_stream', 3), (r'ReadCursor::remove_reader', 3), (r'Vec.*clone|to_vec|retain|extend|spec_', 5)])
-for n, w, t in (("c09_mp_a1_d4", "mpmc N=2, alphabet 1 (send, recv, clone receiver, recv on clone, drop clone)", "quick"),
-                ("c09_bc_a1_d4", "broadcast N=1, alphabet 1", "thorough"),
-                ("c09_bc_a2_d4", "broadcast N=2, alphabet 2 (send, recv, add_stream, recv on new stream, unsubscribe)", "quick"),
-                ("c09_mp_a3_d4", "mpmc N=1, alphabet 3 (send, clone sender, send on clone, drop clone, drop sender, recv)", "quick"),
-                ("c09_bc_a3_d4", "broadcast N=2, alphabet 3", "thorough"),
-                ("c09_mp_a4_d4", "mpmc N=2, alphabet 4 (send, into_single, view, into_multi, recv, clone receiver)", "quick"),
-                ("c09_bc_a4_d4", "broadcast N=1, alphabet 4", "thorough"),
-                ("c09_bc_a5_d4", "broadcast N=2, alphabet 5 (send, recv, drop receiver, add_stream, recv on new stream, drop it)", "thorough")):
-    H(n, S, "C09", ["C09", "C13", "C07", "C11"], t, "symbolic history of 4 calls vs reference model: " + w, "depth 4, sequential", rules=SEQRULES)
+for n, w, t in (("c09_mp_a1", "mpmc N=2, skeleton 1 (send send clone recv0 recv1 send drop1 recv0 send recv0)", "quick"),
+                ("c09_bc_a1", "broadcast N=1, skeleton 1", "thorough"),
+                ("c09_bc_a2", "broadcast N=2, skeleton 2 (send send add_stream recv0 recv1 send unsubscribe send recv0 send)", "quick"),
+                ("c09_mp_a3", "mpmc N=1, skeleton 3 (send clone_tx send1 drop_tx1 recv send drop_tx0 recv recv send)", "quick"),
+                ("c09_bc_a3", "broadcast N=2, skeleton 3", "thorough"),
+                ("c09_mp_a4", "mpmc N=2, skeleton 4 (send into_single view send view into_multi clone recv0 into_single recv0)", "quick"),
+                ("c09_bc_a4", "broadcast N=1, skeleton 4", "thorough"),
+                ("c09_bc_a5", "broadcast N=2, skeleton 5 (send add_stream recv0 drop_rx0 send send recv1 send drop_rx1 send)", "quick")):
+    H(n, S, "C09", ["C09", "C13", "C07", "C11"], t, "every sub-sequence of a 10-call skeleton (solver decides per step: execute or skip) vs the reference model: " + w,
+      "10 steps, sequential", rules=SEQRULES)
 for n, cap, N in (("c03_fill_mp_c0", 0, 1), ("c03_fill_bc_c1", 1, 1), ("c03_fill_mp_c2", 2, 2), ("c03_fill_bc_c3", 3, 4), ("c03_fill_mp_c4", 4, 4),
                   ("c03_fill_bc_c5", 5, 8), ("c03_fill_mp_c7", 7, 8), ("c03_fill_bc_c8", 8, 8), ("c03_fill_mp_c9", 9, 16)):
     H(n, S, "C03", ["C03", "C09"], "quick", "requested capacity %d: exactly N=%d sends accepted, then Full with the same value; after k (symbolic) receives exactly k more" % (cap, N),
@@ -327,10 +328,10 @@ for n, w, t in (("c14_bc_poll_vs_send", "broadcast spins(0,0): stream task polls
                 ("c14_bc10_poll_vs_send", "broadcast spins(1,0): poll vs start_send", "thorough"),
                 ("c14_mp11_send_vs_poll", "mpmc spins(1,1): start_send into a full queue vs poll", "thorough")):
     H(n, FU, "C14", ["C14", "C15"], t, w + "; parked-and-never-notified oracle at quiescence", "depth 1, budget 1-3, up to 2 ops per site", rules=FUTRULES)
-for n, w, t in (("c15_bc_hist_d4", "broadcast N=1 spins(0,0), depth 4", "quick"), ("c15_mp_hist_d4", "mpmc N=2 spins(0,0), depth 4", "quick"),
-                ("c15_bc10_hist_d3", "broadcast N=2 spins(1,0), depth 3", "thorough")):
-    H(n, FU, "C15", ["C15", "C09"], t, "symbolic history of start_send / poll / direct try_recv / direct try_send / drop sender / poll_complete inside a task vs the model: " + w,
-      "sequential", rules=FUTRULES)
+for n, w, t in (("c15_bc_hist", "broadcast N=1 spins(0,0)", "quick"), ("c15_mp_hist", "mpmc N=2 spins(0,0)", "quick"),
+                ("c15_bc10_hist", "broadcast N=2 spins(1,0)", "thorough")):
+    H(n, FU, "C15", ["C15", "C09"], t, "every sub-sequence of the 10-call skeleton start_send start_send try_recv start_send poll try_send poll_complete drop_tx poll poll inside a task vs the model: " + w,
+      "10 steps, sequential", rules=FUTRULES)
 for n, r, t in (("c17_churn_r2", 2, "quick"), ("c17_churn_r3", 3, "thorough")):
     H(n, M, "C17", ["C17", "C16"], t,
       "REAL MemoryManager, %d rounds of 21 retirements; in every round a solver-chosen subset of the two registered handles announces; conservation oracle: retired == freed + pending at every round" % r,
@@ -338,10 +339,6 @@ for n, r, t in (("c17_churn_r2", 2, "quick"), ("c17_churn_r3", 3, "thorough")):
 H("c18_bc_shared_inclone_mw", T, "C18", ["C18", "C04", "C05", "C03"], "quick",
   "broadcast shared stream, two live senders (multi-writer CAS path), instrumented payload: consumer A frozen in the middle of clone(); its sibling's try_recv and the producer's try_send (which reaches the pinned slot) must each finish in a bounded number of their own steps",
   "N=2, injection only inside Clone, up to 3 ops at that site; retry loops bound 3 with unwinding assertions")
-for n, w in (("c05_bc_a2_d3", "broadcast N=1 alphabet 2"), ("c05_mp_a1_d3", "mpmc N=1 alphabet 1"), ("c05_bc_a5_d3", "broadcast N=1 alphabet 5"), ("c05_mp_a4_d3", "mpmc N=1 alphabet 4 (view drops in place)")):
-    H(n, S, "C05", ["C05", "C09"], "quick" if n in ("c05_bc_a2_d3", "c05_mp_a4_d3") else "thorough",
-      "symbolic history of 3 calls with the instrumented payload, then teardown of every handle: every payload and clone dropped exactly once; " + w,
-      "depth 3, sequential, teardown checked", rules=SEQRULES, teardown=True)
 for n in ("c04_bc_shared_inclone", "c04_bc_streams_inclone", "c04_bc_view_inview", "c04_mp_view_inview", "c04_bc_shared_all", "c05_mp_shared_all",
           "c06_bc_sibdrop_inclone", "c18_bc_shared_inclone_mw", "c17_teardown_mp", "c17_teardown_bc_stream", "c17_teardown_bc_clone"):
     HARNESSES[n]["teardown"] = True
@@ -366,9 +363,13 @@ for n, w, t in (("c05_seq_bc_n2_streams", "broadcast N=2, two streams", "quick")
     H(n, S, "C05", ["C05", "C17"], t,
       "sequential template with the instrumented payload: ps sends, pr0/pr1 receives, ps2 more sends (overwriting passed slots), optional in-place view, teardown in a solver-chosen order; every payload and clone dropped exactly once; " + w,
       "sequential; symbolic counts <= N, view yes/no, teardown order", rules=SEQRULES, teardown=True)
-for n in ("c05_bc_a2_d3", "c05_mp_a1_d3", "c05_bc_a5_d3", "c05_mp_a4_d3"):
-    HARNESSES[n]["tier"] = "thorough"
 for n, w in (("c05_bcfut_uni_addstream", "broadcast futures"), ("c05_mpfut_uni_addstream", "mpmc futures (move-out)")):
     H(n, FU, "C05", ["C05", "C04", "C01"], "quick",
       w + " single-consumer receiver: into_single, add_stream_with, one send, one in-place receive on each stream, teardown; instrumented payload (double drop / use after drop asserted)",
       "sequential", rules=FUTRULES + [(r'ReadCursor::add_stream', 3), (r'Vec.*clone|to_vec|retain|extend|spec_', 5)], teardown=True)
+for n, w in (("c15_mpfut_direct_recv", "mpmc futures receiver: direct blocking recv() on an empty queue while the sender's try_send runs at every preemption point"),
+             ("c15_bcfut_direct_recv_drop", "broadcast futures receiver: direct blocking recv() on an empty queue vs drop of the last sender")):
+    H(n, W, "C15", ["C15", "C08"], "quick", w + "; must return the value / the end like the plain receiver and must not panic", "N=2, budget 3", rules=WRULES + FUTRULES)
+H("c14_bc_drop_stream_repoll", FU, "C14", ["C14", "C11"], "quick",
+  "broadcast N=1, two streams, ring full because of stream 1 only, sink task parked: the drop of stream 1's last handle is preempted everywhere by the executor re-polling the sink task (only once it has been notified); afterwards the task must have got its value in or have been woken after its last call began",
+  "N=1, budget 1", rules=FUTRULES + [(r'ReadCursor::add_stream', 3), (r'ReadCursor::remove_reader', 3), (r'Vec.*clone|to_vec|retain|extend|spec_', 5)])
